@@ -50,6 +50,9 @@ add("C16", "vf-sim", "property-based testing on tokio's paused (virtual) clock w
     "The real connection task runs on a current-thread tokio runtime with a paused clock against a transport that answers each Ping after a generated delay, for k rounds, late or never: pings must be sent exactly every I, a KeepaliveTimeout must fall within [T, T+I] of the last pong, a surviving connection may have no pong-free gap above T+I, peers answering within the bound never time out, disabled values never ping/time out, and after the end the task future and pending calls complete even if the transport stays silent.",
     "Trusted: tokio's paused clock (ms granularity; intervals multiples of 10 ms and delays ending in 5 ms avoid simultaneous events), the ClockWs transport of the harness. Sampling over (I,T,policy).")
 
+add("C13", "vf-sim", "stateful property-based testing in a deterministic simulator: the real CopyBidirectional future against a scripted AsyncBufRead+AsyncWrite (partial reads/writes, Pending points with and without wake-ups, EOF and errors at every position) and a real peer application",
+    "The bridge future is driven in simnet against a generated script of the local side and a generated peer (data, shutdown, drop, late reader) under generated options/back-pressure/schedule: bytes relayed in both directions must satisfy the content function, the bridge's Push frames obey the window rule, local EOF produces Finish, the peer's Finish shuts the local side down, completion returns the true byte counts, and after any failed local operation the future must be complete with an error at quiescence (no unrelated traffic needed).", SIM_NOTE)
+
 ENG = {
  "vf-pure": ("/verif/harness/vf-pure", "proptest + bounded-exhaustive enumeration against reference codecs/models (E1)"),
  "vf-sim": ("/verif/harness/vf-sim", "simnet: deterministic simulator around the real penguin-mux crate (E2) and tokio paused-clock engine (E3)"),
